@@ -149,8 +149,11 @@ namespace smt
             known_term = rational::ZERO;
         }
         else
+        {
             for ([[maybe_unused]] auto &[v, c] : vars)
                 c *= right;
+            known_term *= right;
+        }
         return *this;
     }
 
